@@ -9,7 +9,7 @@ VERIF = os.environ.get("SWEEP_VERIF", "/verif")
 out_path = os.environ.get("SWEEP_OUT", os.path.join(SEEDED, "SWEEP.md"))
 names = sorted(d for d in os.listdir(SEEDED) if os.path.isfile(os.path.join(SEEDED, d, "meta.json")))
 if len(sys.argv) > 1:
-    names = [n for n in names if any(a in n for a in sys.argv[1:])]
+    names = [n for n in names if any(n.startswith(a) for a in sys.argv[1:])]
 rows = []
 head = subprocess.run(["git", "-C", "/repo", "rev-parse", "--short", "HEAD"], capture_output=True, text=True).stdout.strip()
 for name in names:
